@@ -66,7 +66,7 @@ func runBoundedWith(ent boundedEntry, tier string, extra map[string][]byte) boun
 	}
 	src = strings.ReplaceAll(src, "TestVerifBounded", "TestVerifReplay")
 	t0 := time.Now()
-	out, runErr := RunHarnessWith(src, ent.Pkg, 15*time.Minute, extra)
+	out, runErr := RunHarnessWith(src, ent.Pkg, 40*time.Minute, extra)
 	res.Seconds = round3(time.Since(t0).Seconds())
 	switch {
 	case strings.Contains(out, "BOUNDED-VIOLATED"):
